@@ -13,6 +13,7 @@ import (
 // (few bucket prefixes, long shared prefixes), none a proper prefix of another.
 
 const (
+	codeSHA512   = 0x13
 	codeSHA256   = 0x12
 	codeIdentity = 0x00
 	codecRaw     = 0x55
@@ -114,6 +115,16 @@ func GenKeys(r *simrt.Rand, n int, short bool) []KeySpec {
 		}
 		pool[i] = m
 	}
+	// long digests (sha2-512 sized): every key carries one shared 32..55 byte
+	// stem right after its bucket prefix, so that keys of one bucket share more
+	// than 32 index-key bytes
+	var stem []byte
+	if !short && r.Chance(0.12) {
+		stem = make([]byte, 32+r.Intn(24))
+		for j := range stem {
+			stem[j] = byte(r.Intn(3))
+		}
+	}
 	var out []KeySpec
 	seen := map[string]bool{}
 	attempts := 0
@@ -153,6 +164,19 @@ func GenKeys(r *simrt.Rand, n int, short bool) []KeySpec {
 			if attempts > 20*n {
 				// the shared-prefix tree is saturated: perturb one later byte
 				d[4+r.Intn(28)] = byte(r.Intn(256))
+			}
+			if stem != nil {
+				// prefix | stem | tail of the digest built above = 64 bytes; the
+				// check below rejects duplicates
+				keep := 60 - len(stem) // 5..28 bytes from the end of d, the part that varies most
+				ld := append(append(append([]byte(nil), d[:4]...), stem...), d[32-keep:]...)
+				if attempts > 60*n {
+					for j := 64 - keep; j < 64; j++ {
+						ld[j] = byte(r.Intn(256))
+					}
+				}
+				d = ld
+				code = codeSHA512
 			}
 		}
 		// distinct and prefix-free
